@@ -530,7 +530,8 @@ class MinMaxAggregator:
         new_terms = [Function(LOC, chain_name, [PREV, NEXT], False)] + list(terms)
 
         newargs = translation.translate_parameters(oldmax.atom.symbol.arguments)
-        newargs = [next_ if i == idx else x for i, x in enumerate(newargs)]
+        # idx is the position in the replaced atom, in the chain atom the value is at the mapped position
+        newargs = [next_ if i == translation.mapping[idx] else x for i, x in enumerate(newargs)]
         for arg in newargs:
             assert isinstance(arg, AST)
         chainpred = Literal(
